@@ -78,8 +78,8 @@ type Verdict struct {
 }
 
 const (
-	realPollCap = 3000
-	refStepCap  = 40000
+	realPollCap = 400
+	refStepCap  = 6000
 )
 
 // mapOrderChooser lets the reference try the iteration orders of 2-key maps.
@@ -246,4 +246,13 @@ func replaySource(src string, pt PointSpec) (bool, string) {
 	p := &Prog{Scripts: map[string][]*rt.Node{"s.p": tree}, Main: "s.p", Point: pt}
 	v := Differential(p)
 	return !v.OK, v.What
+}
+
+// parseToTree recovers a reference tree from source text through the real parser.
+func parseToTree(name, src string) ([]*rt.Node, error) {
+	stmts, err := parser.ParsePipeline(name, src)
+	if err != nil {
+		return nil, fmt.Errorf("replay: %s does not parse: %v", name, err)
+	}
+	return drv.FromAst(stmts)
 }
